@@ -1469,6 +1469,19 @@ static void vnaproperty_free(vnaproperty_t *root)
     free((void *)root);
 }
 
+/*
+ * _vnaproperty_free: free a property tree without allocating memory
+ *   @rootptr: address of root pointer (set to NULL)
+ *
+ *   Unlike vnaproperty_delete(rootptr, "."), this function doesn't format
+ *   a descriptor string, so it cannot fail: for use in destructors.
+ */
+void _vnaproperty_free(vnaproperty_t **rootptr)
+{
+    vnaproperty_free(*rootptr);
+    *rootptr = NULL;
+}
+
 
 /***********************************************************************
  * External API
